@@ -6,6 +6,8 @@ is kept.  This is what `C05_inline` needs for a criterion that keeps functions w
 calls.
 -/
 import IrVerif.Lemmas.InlineTop
+import IrVerif.Lemmas.InlineSyn
+import IrVerif.Lemmas.InlineRun
 namespace IrVerif.Inline
 open IrVerif.Sem IrVerif.Passes
 variable {Val : Type}
@@ -129,6 +131,15 @@ theorem mem_replaceFunc {tbl : List Func} {f' g : Func} (hg : g ∈ replaceFunc 
   · have : (x.id == f'.id) = false := by simpa using h
     simp [this, hx]
 
+theorem mem_replaceFunc' {tbl : List Func} {f' g : Func} (hg : g ∈ replaceFunc tbl f') :
+    g = f' ∨ (g ∈ tbl ∧ g.id ≠ f'.id) := by
+  unfold replaceFunc at hg
+  obtain ⟨x, hx, rfl⟩ := List.mem_map.1 hg
+  by_cases h : x.id = f'.id
+  · simp [h]
+  · have : (x.id == f'.id) = false := by simpa using h
+    simp [this, hx, h]
+
 /-- a function whose turn is over is not touched any more -/
 theorem inlFuncs_mem (crit : OpId → Bool) (budget : Nat) : ∀ (ids : List OpId) (st : ISt) (tbl : List Func) (g : Func),
     g ∈ tbl → g.id ∉ ids → g ∈ (inlFuncs crit budget st tbl ids).2
@@ -149,24 +160,23 @@ theorem inlFuncs_mem (crit : OpId → Bool) (budget : Nat) : ∀ (ids : List OpI
 /-! ## the loop -/
 
 /-- what is fixed during the loop: the function environment `Φ` of the model before the pass is a fixpoint on its
-    function table `T0`; the functions of `T0` are well-formed with value ids below `N`; the function bodies of
-    the table at the end of the loop (`fin`) are well-formed (`synOK`, evaluated by the model on its result) -/
-structure LoopCtx (I : Interp Val) (Φ : FEnv Val) (T0 fin : List Func) (N : Nat) : Prop where
+    function table `T0`; the functions of `T0` are well-formed with value ids below `N` -/
+structure LoopCtx (I : Interp Val) (Φ : FEnv Val) (T0 : List Func) (N : Nat) : Prop where
   den0 : ∀ op f, findFunc T0 op = some f → Φ op = some (funcDen I Φ f)
   nd : (T0.map (·.id)).Nodup
   noidentΦ : Φ identityOp = none
   noident : findFunc T0 identityOp = none
-  syn0 : ∀ f ∈ T0, opsAllNodes (fun op => !isStochasticOp op) f.nodes = true ∧ subInitsOKNodes f.nodes = true ∧
-    closedNodes (eraseNodes f.nodes) = true ∧ callsOKNodes T0 f.nodes = true
   valid0 : ∀ f ∈ T0, ssaNodes (eraseNodes f.nodes) = true ∧ noFwdNodes (eraseNodes f.nodes) = true ∧
     (∀ v ∈ refsNodes (eraseNodes f.nodes), v < N) ∧ (∀ v ∈ defsNodes (eraseNodes f.nodes), v < N) ∧
     (∀ v ∈ f.outputs, v < N)
-  synFin : ∀ f ∈ fin, opsAllNodes (fun op => !isStochasticOp op) f.nodes = true ∧ subInitsOKNodes f.nodes = true ∧
-    closedNodes (eraseNodes f.nodes) = true ∧ callsOKNodes T0 f.nodes = true
 
 /-- every function of the table denotes what `Φ` says -/
 def DenOK (I : Interp Val) (Φ : FEnv Val) (tbl : List Func) : Prop :=
   ∀ op g, findFunc tbl op = some g → Φ op = some (funcDen I Φ g)
+
+/-- every function body of the table is what a clone needs (`synOK`) -/
+def SynTbl (T0 tbl : List Func) : Prop :=
+  ∀ g ∈ tbl, Syn (fun op => !isStochasticOp op) T0 g.nodes ∧ closedNodes (eraseNodes g.nodes) = true
 
 theorem map_app_nil (l : List VId) : l.map (Subst.app []) = l := by
   conv => rhs; rw [← List.map_id l]
@@ -174,70 +184,141 @@ theorem map_app_nil (l : List VId) : l.map (Subst.app []) = l := by
   intro v _; exact Subst.app_nil v
 
 /-- the table during the loop is what the call sites need -/
-theorem tblOK_loop {I : Interp Val} {Φ : FEnv Val} {T0 fin : List Func} {N : Nat} (ctx : LoopCtx I Φ T0 fin N)
-    {tbl : List Func} (hsig : SigEq tbl T0) (hden : DenOK I Φ tbl)
-    (hmem : ∀ g ∈ tbl, g ∈ T0 ∨ g ∈ fin) : TblOK I Φ tbl := by
-  have hsyn : ∀ op g, findFunc tbl op = some g → opsAllNodes (fun op => !isStochasticOp op) g.nodes = true ∧
-      subInitsOKNodes g.nodes = true ∧ closedNodes (eraseNodes g.nodes) = true ∧ callsOKNodes T0 g.nodes = true := by
-    intro op g hg
-    rcases hmem g (findFunc_some hg).1 with h | h
-    · exact ctx.syn0 g h
-    · exact ctx.synFin g h
-  refine ⟨hden, fun op g hg => (hsyn op g hg).1, fun op g hg => (hsyn op g hg).2.1,
-    fun op g hg => (hsyn op g hg).2.2.1, fun op g hg => ?_, (findFunc_sig (Eq.symm hsig) identityOp).1 ctx.noident,
-    ctx.noidentΦ⟩
-  rw [callsOKNodes_sig hsig]; exact (hsyn op g hg).2.2.2
+theorem tblOK_loop {I : Interp Val} {Φ : FEnv Val} {T0 : List Func} {N : Nat} (ctx : LoopCtx I Φ T0 N)
+    {tbl : List Func} (hsig : SigEq tbl T0) (hden : DenOK I Φ tbl) (hsyn : SynTbl T0 tbl) : TblOK I Φ tbl := by
+  refine ⟨hden, fun op g hg => (hsyn g (findFunc_some hg).1).1.1, fun op g hg => (hsyn g (findFunc_some hg).1).1.2.1,
+    fun op g hg => (hsyn g (findFunc_some hg).1).2, fun op g hg => ?_,
+    (findFunc_sig (Eq.symm hsig) identityOp).1 ctx.noident, ctx.noidentΦ⟩
+  rw [callsOKNodes_sig hsig]; exact (hsyn g (findFunc_some hg).1).1.2.2
 
-/-- **the loop over the functions keeps every function's denotation** -/
-theorem inlFuncs_den {I : Interp Val} {Φ : FEnv Val} {T0 fin : List Func} {N : Nat} (ctx : LoopCtx I Φ T0 fin N)
-    (crit : OpId → Bool) (budget : Nat) : ∀ (ids : List OpId) (st : ISt) (tbl : List Func),
+theorem synTbl_ht {T0 tbl : List Func} (hsig : SigEq tbl T0) (hsyn : SynTbl T0 tbl) :
+    ∀ op f, findFunc tbl op = some f → (fun op => !isStochasticOp op) op = true →
+      Syn (fun op => !isStochasticOp op) tbl f.nodes := by
+  intro op f hf _
+  obtain ⟨⟨a, b, c⟩, _⟩ := hsyn f (findFunc_some hf).1
+  exact ⟨a, b, by rw [callsOKNodes_sig hsig]; exact c⟩
+
+/-- call depth, measured in `T0`, of the function bodies of the table -/
+def LvlTbl (T0 tbl : List Func) : Prop :=
+  ∀ g ∈ tbl, ∀ j, lvl T0 (j + 1) g.id = true → opsAllNodes (lvl T0 j) g.nodes = true
+
+theorem isSome_of_sig {tbl T0 : List Func} (hsig : SigEq tbl T0) (op : OpId) :
+    (findFunc tbl op).isSome = (findFunc T0 op).isSome := by
+  cases h : findFunc tbl op with
+  | none => rw [(findFunc_sig hsig op).1 h]
+  | some f => obtain ⟨f', hf', _⟩ := (findFunc_sig hsig op).2 f h; rw [hf']; rfl
+
+theorem notAcc_sig {tbl T0 : List Func} (hsig : SigEq tbl T0) (crit : OpId → Bool) :
+    notAcc tbl crit = notAcc T0 crit := by
+  funext op
+  simp only [notAcc, isSome_of_sig hsig]
+
+theorem lvlTbl_ht {T0 tbl : List Func} (hsig : SigEq tbl T0) (hl : LvlTbl T0 tbl) :
+    ∀ j op f, findFunc tbl op = some f → lvl T0 (j + 1) op = true → opsAllNodes (lvl T0 j) f.nodes = true := by
+  intro j op f hf h
+  obtain ⟨hmem, hid⟩ := findFunc_some hf
+  exact hl f hmem j (hid ▸ h)
+
+/-- the invariant of Lemmas/InlineSyn.lean for the predicate "call depth at most `j`" -/
+theorem lvl_syn_ht {T0 tbl : List Func} (hsig : SigEq tbl T0) (hsyn : SynTbl T0 tbl) (hl : LvlTbl T0 tbl) (j : Nat) :
+    ∀ op f, findFunc tbl op = some f → lvl T0 j op = true → Syn (lvl T0 j) tbl f.nodes := by
+  intro op f hf h
+  obtain ⟨hmem, hid⟩ := findFunc_some hf
+  obtain ⟨⟨_, b, c⟩, _⟩ := hsyn f hmem
+  refine ⟨?_, b, by rw [callsOKNodes_sig hsig]; exact c⟩
+  cases j with
+  | zero =>
+    -- a function has no call depth 0
+    simp only [lvl, Option.isNone_iff_eq_none] at h
+    have := isSome_of_sig hsig op
+    rw [hf, h] at this
+    cases this
+  | succ j' => exact opsAllNodes_mono (lvl_mono T0 j') f.nodes (hl f hmem j' (hid ▸ h))
+
+/-- **the loop over the functions**: every function keeps its denotation, the bodies stay well-formed and do not
+    get deeper call trees, the budget is not exhausted, only accepted functions are recorded as inlined, and a
+    function whose turn is over was recorded as inlined or has no accepted call left -/
+theorem inlFuncs_den {I : Interp Val} {Φ : FEnv Val} {T0 : List Func} {N : Nat} (ctx : LoopCtx I Φ T0 N)
+    (crit : OpId → Bool) (budget : Nat) (hlb : ∀ f ∈ T0, lvl T0 budget f.id = true) :
+    ∀ (ids : List OpId) (st : ISt) (tbl : List Func),
     ids.Nodup → SigEq tbl T0 → N ≤ st.next → (∀ g ∈ tbl, g.id ∈ ids → g ∈ T0) →
-    (∀ g ∈ tbl, g.id ∉ ids → g ∈ T0 ∨ g ∈ fin) →
-    (inlFuncs crit budget st tbl ids).2 = fin → DenOK I Φ tbl → DenOK I Φ fin
-  | [], _, _, _, _, _, _, _, hfin, hden => by
-    simp only [inlFuncs] at hfin
-    exact hfin ▸ hden
-  | id :: rest, st, tbl, hnd, hsig, hN, horig, hdone, hfin, hden => by
+    DenOK I Φ tbl → SynTbl T0 tbl → LvlTbl T0 tbl → (∀ op ∈ st.inlined, crit op = true) →
+    (∀ g ∈ tbl, g.id ∉ ids → g.id ∈ st.inlined ∨ opsAllNodes (notAcc T0 crit) g.nodes = true) →
+    DenOK I Φ (inlFuncs crit budget st tbl ids).2 ∧ SynTbl T0 (inlFuncs crit budget st tbl ids).2 ∧
+    LvlTbl T0 (inlFuncs crit budget st tbl ids).2 ∧ (inlFuncs crit budget st tbl ids).1.stuck = st.stuck ∧
+    (∀ op ∈ (inlFuncs crit budget st tbl ids).1.inlined, crit op = true) ∧
+    (∀ g ∈ (inlFuncs crit budget st tbl ids).2, g.id ∈ (inlFuncs crit budget st tbl ids).1.inlined ∨
+      opsAllNodes (notAcc T0 crit) g.nodes = true)
+  | [], _, _, _, _, _, _, hden, hsyn, hlv, hinl, hdone => by
+    simp only [inlFuncs]
+    exact ⟨hden, hsyn, hlv, trivial, hinl, fun g hg => hdone g hg (by simp)⟩
+  | id :: rest, st, tbl, hnd, hsig, hN, horig, hden, hsyn, hlv, hinl, hdone => by
     simp only [List.nodup_cons] at hnd
     have horig' : ∀ g ∈ tbl, g.id ∈ rest → g ∈ T0 := fun g hg h => horig g hg (List.mem_cons_of_mem _ h)
-    rw [inlFuncs] at hfin
-    split at hfin
-    · -- already inlined: the function stays as it is (and is deleted at the end)
-      refine inlFuncs_den ctx crit budget rest st tbl hnd.2 hsig hN horig' ?_ hfin hden
-      intro g hg h
+    rw [inlFuncs]
+    split
+    · rename_i hin
+      refine inlFuncs_den ctx crit budget hlb rest st tbl hnd.2 hsig hN horig' hden hsyn hlv hinl (fun g hg h => ?_)
       by_cases hgid : g.id = id
-      · exact Or.inl (horig g hg (by rw [hgid]; exact List.mem_cons_self))
+      · left; rw [hgid]; simpa using hin
       · exact hdone g hg (by simp only [List.mem_cons, not_or]; exact ⟨hgid, h⟩)
-    · split at hfin
-      · refine inlFuncs_den ctx crit budget rest st tbl hnd.2 hsig hN horig' ?_ hfin hden
-        intro g hg h
+    · split
+      · rename_i hnone
+        refine inlFuncs_den ctx crit budget hlb rest st tbl hnd.2 hsig hN horig' hden hsyn hlv hinl (fun g hg h => ?_)
         by_cases hgid : g.id = id
-        · exact Or.inl (horig g hg (by rw [hgid]; exact List.mem_cons_self))
+        · -- there is no function with this identifier
+          exfalso
+          have : findFunc tbl g.id ≠ none := by
+            unfold findFunc
+            intro hn
+            rw [List.find?_eq_none] at hn
+            exact absurd (by simp) (hn g hg)
+          exact this (hgid ▸ hnone)
         · exact hdone g hg (by simp only [List.mem_cons, not_or]; exact ⟨hgid, h⟩)
       · rename_i f hf
         obtain ⟨hfmem, hfid⟩ := findFunc_some hf
         have hf0 : f ∈ T0 := horig f hfmem (by rw [hfid]; exact List.mem_cons_self)
-        -- every function of the current table is original or final
-        have hmem : ∀ g ∈ tbl, g ∈ T0 ∨ g ∈ fin := by
-          intro g hg
-          by_cases h : g.id ∈ id :: rest
-          · exact Or.inl (horig g hg h)
-          · exact hdone g hg h
-        have ht := tblOK_loop ctx hsig hden hmem
+        have ht := tblOK_loop ctx hsig hden hsyn
         obtain ⟨v1, v2, v3, v4, v5⟩ := ctx.valid0 f hf0
-        obtain ⟨_, _, s3, s4⟩ := ctx.syn0 f hf0
+        obtain ⟨⟨s1, s2, s4⟩, s3⟩ := hsyn f hfmem
         have hcalls : callsOKNodes tbl f.nodes = true := by rw [callsOKNodes_sig hsig]; exact s4
         have key := fun (α : List (String × AttrData)) (ρ : Env Val) =>
           inlNodes_sound I Φ α tbl crit (inlAt tbl crit budget) N ht (deepOK_inlAt I Φ α tbl crit ht budget)
             f.nodes [] f.outputs st ρ ρ (fun v _ => by rw [Subst.app_nil]) (fun p hp => by simp at hp) v1 s3 v2 v3 v4 hN
             (fun p hp => by simp at hp) hcalls
         simp only [map_app_nil] at key
-        generalize hR : inlNodes tbl crit (inlAt tbl crit budget) st [] f.outputs f.nodes = R at hfin key
+        have hidt : findFunc tbl identityOp = none := (findFunc_sig (Eq.symm hsig) identityOp).1 ctx.noident
+        have hsynR := inlNodes_syn (fun op => !isStochasticOp op) tbl crit (inlAt tbl crit budget) (by decide) hidt
+          (synTbl_ht hsig hsyn)
+          (deepSyn_inlAt (fun op => !isStochasticOp op) tbl crit (by decide) hidt (synTbl_ht hsig hsyn) budget)
+          f.nodes st [] f.outputs ⟨s1, s2, hcalls⟩
+        -- call depth of the body: every call tree of `T0` is at most `budget` deep
+        have hbody : opsAllNodes (lvl T0 (budget + 1)) f.nodes = true := by
+          refine opsAllNodes_mono (p := fun _ => true) (fun op _ => ?_) f.nodes (opsAllNodes_true f.nodes)
+          cases hfo : findFunc T0 op with
+          | none => exact lvl_mono_le T0 (Nat.zero_le _) op (by simp [lvl, hfo])
+          | some g =>
+            obtain ⟨hgm, hgid⟩ := findFunc_some hfo
+            exact lvl_mono T0 budget op (hgid ▸ hlb g hgm)
+        have hlvR := inlNodes_lvl T0 tbl crit (inlAt tbl crit budget) budget ctx.noident (isSome_of_sig hsig)
+          (lvlTbl_ht hsig hlv budget)
+          (deepL_inlAt T0 tbl crit ctx.noident (isSome_of_sig hsig) (lvlTbl_ht hsig hlv) budget budget (Nat.le_refl _))
+          f.nodes st [] f.outputs hbody
+        -- the rewritten body is not deeper than the body was
+        have hlvl' : ∀ j, lvl T0 (j + 1) f.id = true →
+            opsAllNodes (lvl T0 j) (inlNodes tbl crit (inlAt tbl crit budget) st [] f.outputs f.nodes).nodes = true := by
+          intro j hj
+          have hidl : lvl T0 j identityOp = true := lvl_mono_le T0 (Nat.zero_le _) identityOp (by simp [lvl, ctx.noident])
+          have hfj : opsAllNodes (lvl T0 j) f.nodes = true := hlv f hfmem j hj
+          exact (inlNodes_syn (lvl T0 j) tbl crit (inlAt tbl crit budget) hidl hidt (lvl_syn_ht hsig hsyn hlv j)
+            (deepSyn_inlAt (lvl T0 j) tbl crit hidl hidt (lvl_syn_ht hsig hsyn hlv j) budget)
+            f.nodes st [] f.outputs ⟨hfj, s2, hcalls⟩).1
+        generalize hR : inlNodes tbl crit (inlAt tbl crit budget) st [] f.outputs f.nodes = R at key hsynR hlvR hlvl'
         -- the rewritten function denotes the same
         have hsame : funcDen I Φ { f with nodes := R.nodes, outputs := R.outs } = funcDen I Φ f := by
           funext cattrs args
           simp only [funcDen]
-          obtain ⟨k1, k2, _, _, _⟩ := key (bindParams f.params cattrs) (Env.empty.bind f.inputs args)
+          obtain ⟨k1, k2, _⟩ := key (bindParams f.params cattrs) (Env.empty.bind f.inputs args)
           rw [k2, List.map_map]
           apply List.map_congr_left
           intro v hv
@@ -252,33 +333,59 @@ theorem inlFuncs_den {I : Interp Val} {Φ : FEnv Val} {T0 fin : List Func} {N : 
             rw [List.map_map, List.map_map] at this
             exact this
           rw [this]; exact ctx.nd
-        refine inlFuncs_den ctx crit budget rest _ _ hnd.2
-          (Eq.trans (sigEq_replaceFunc tbl hndt hfmem hsig') hsig) (Nat.le_trans hN (key [] Env.empty).2.2.1) ?_ ?_ hfin ?_
-        · intro g hg h
-          rcases mem_replaceFunc hg with hg | hg
-          · rw [hg] at h; simp only at h; rw [hfid] at h; exact absurd h hnd.1
-          · exact horig' g hg h
-        · intro g hg h
-          rcases mem_replaceFunc hg with hg' | hg'
-          · right
-            rw [← hfin]
-            exact inlFuncs_mem crit budget rest _ _ g hg h
-          · by_cases hgid : g.id = id
+        obtain ⟨l1, l2, l3, l4⟩ := hlvR
+        obtain ⟨r1, r2, r3, r4, r5, r6⟩ := inlFuncs_den ctx crit budget hlb rest R.st
+          (replaceFunc tbl { f with nodes := R.nodes, outputs := R.outs }) hnd.2
+          (Eq.trans (sigEq_replaceFunc tbl hndt hfmem hsig') hsig) (Nat.le_trans hN (key [] Env.empty).2.2.1)
+          (fun g hg h => by
+            rcases mem_replaceFunc hg with hg | hg
+            · rw [hg] at h; simp only at h; rw [hfid] at h; exact absurd h hnd.1
+            · exact horig' g hg h)
+          (fun op g hg => by
+            by_cases hop : op = f.id
+            · subst hop
+              have := findFunc_replaceFunc_self tbl { f with nodes := R.nodes, outputs := R.outs } ⟨f, hfmem, rfl⟩
+              simp only at this
+              rw [this] at hg
+              simp only [Option.some.injEq] at hg
+              rw [← hg, hsame]
+              exact hden f.id f (hfid ▸ hf)
+            · rw [findFunc_replaceFunc_ne tbl _ (by simpa using hop)] at hg
+              exact hden op g hg)
+          (fun g hg => by
+            rcases mem_replaceFunc hg with hg | hg
+            · rw [hg]
+              simp only
+              exact ⟨⟨hsynR.1, hsynR.2.1, by rw [← callsOKNodes_sig hsig]; exact hsynR.2.2⟩, (key [] Env.empty).2.2.2.2.2.1⟩
+            · exact hsyn g hg)
+          (fun g hg j hj => by
+            rcases mem_replaceFunc hg with hg | hg
+            · rw [hg] at hj ⊢
+              simp only at hj ⊢
+              exact hlvl' j hj
+            · exact hlv g hg j hj)
+          (fun op hop => by
+            rcases l3 op hop with h | h
+            · exact hinl op h
+            · exact h)
+          (fun g hg h => by
+            rcases mem_replaceFunc hg with hg' | hg'
             · right
-              rw [← hfin]
-              exact inlFuncs_mem crit budget rest _ _ g hg h
-            · exact hdone g hg' (by simp only [List.mem_cons, not_or]; exact ⟨hgid, h⟩)
-        · intro op g hg
-          by_cases hop : op = f.id
-          · subst hop
-            have := findFunc_replaceFunc_self tbl { f with nodes := R.nodes, outputs := R.outs } ⟨f, hfmem, rfl⟩
-            simp only at this
-            rw [this] at hg
-            simp only [Option.some.injEq] at hg
-            rw [← hg, hsame]
-            exact hden f.id f (hfid ▸ hf)
-          · rw [findFunc_replaceFunc_ne tbl _ (by simpa using hop)] at hg
-            exact hden op g hg
+              rw [hg']
+              simp only
+              rw [← notAcc_sig hsig]; exact l2
+            · by_cases hgid : g.id = id
+              · -- the only function with this identifier is `f`, which was replaced
+                rcases mem_replaceFunc' hg with h1 | h1
+                · right
+                  rw [h1]
+                  simp only
+                  rw [← notAcc_sig hsig]; exact l2
+                · exact absurd (hgid.trans hfid.symm) h1.2
+              · rcases hdone g hg' (by simp only [List.mem_cons, not_or]; exact ⟨hgid, h⟩) with h' | h'
+                · exact Or.inl (l4 _ h')
+                · exact Or.inr h')
+        exact ⟨r1, r2, r3, by rw [r4, l1], r5, r6⟩
 
 /-! ## the function environment of the result -/
 
@@ -310,5 +417,42 @@ theorem fenv_result (I : Interp Val) (T : List Func) (Φ : FEnv Val) (ok : OpId 
       refine funcDen_congrΦ I _ _ _ (fun o ho => ?_) f' (opsAllNodes_and hl (hbody f' (findFunc_some hf).1))
       simp only [Bool.and_eq_true] at ho
       exact fenv_result I T Φ ok hden hnone hbody e o ho.2 ho.1
+
+/-- call depth in the table `T` after the pass: not deeper than in the table `T0` before, for the operators that
+    are kept or are not functions (`ok`) -/
+theorem lvl_result (T0 T : List Func) (ok : OpId → Bool)
+    (hnone : ∀ op, findFunc T0 op = none → findFunc T op = none)
+    (hT : ∀ op g', findFunc T op = some g' →
+      (∀ j, lvl T0 (j + 1) op = true → opsAllNodes (lvl T0 j) g'.nodes = true) ∧ opsAllNodes ok g'.nodes = true) :
+    ∀ (j : Nat) (op : OpId), lvl T0 j op = true → ok op = true → lvl T j op = true
+  | 0, op, h, _ => by
+    simp only [lvl, Option.isNone_iff_eq_none] at h ⊢
+    exact hnone op h
+  | j + 1, op, h, _ => by
+    rw [lvl]
+    cases hf : findFunc T op with
+    | none => rfl
+    | some g' =>
+      simp only
+      obtain ⟨h1, h2⟩ := hT op g' hf
+      refine opsAllNodes_mono (fun o ho => ?_) g'.nodes (opsAllNodes_and (h1 j h) h2)
+      simp only [Bool.and_eq_true] at ho
+      exact lvl_result T0 T ok hnone hT j o ho.1 ho.2
+
+theorem lvlTbl_self (T0 : List Func) (hnd : (T0.map (·.id)).Nodup) : LvlTbl T0 T0 := by
+  intro g hg j hj
+  rw [lvl] at hj
+  cases hf : findFunc T0 g.id with
+  | none =>
+    exfalso
+    unfold findFunc at hf
+    rw [List.find?_eq_none] at hf
+    exact absurd (by simp) (hf g hg)
+  | some g' =>
+    rw [hf] at hj
+    simp only at hj
+    obtain ⟨hm, hid⟩ := findFunc_some hf
+    have : g' = g := eq_of_nodup_ids hnd hm hg hid
+    rw [← this]; exact hj
 
 end IrVerif.Inline
